@@ -75,9 +75,19 @@ package literal
 //@   opt modifies-everything true
 //@ globalinv[defaultBuilder-set] by init#1: defaultBuilder != nil
 
+// What Literal.UUID hashes: the bytes of the boxed value (no type tag).
+//@ spec def litEnc(v Any) String = ite(typeis(v, "bool"), ite(unbox(v, "bool"), "true", "false"), ite(typeis(v, "int64"), padTo(varintBytes(unbox(v, "int64")), 8), ite(typeis(v, "float64"), le64Bytes(f64bits(unbox(v, "float64"))), ite(typeis(v, "string"), unbox(v, "string"), ite(typeis(v, "[]byte"), unbox(v, "[]byte"), "")))))
 //@ props C06
+//@ axiom lu-def: forall l *Literal :: {lu(l)} lu(l) == sha16(litEnc(l.v))
+//@ pool bufPool: x != nil
 //@ func (l *Literal) UUID
-//@   trusted hash of the value bytes; definedness and injectivity are the subject of C06
-//@   pure
+//@   opt axioms lu-def
 //@   requires wfLit(l)
-//@   ensures result == lu(l) && len(result) == 16
+//@   ensures[hash-of-value-bytes] result == sha16(litEnc(l.v))
+//@   ensures[is-lu] result == lu(l) && len(result) == 16
+
+// The literal encoding identifies the value among values of the same dynamic type. (Across types it
+// does not: see the known findings of C06.)
+//@ spec def litValue(v Any) Bool = typeis(v, "bool") || typeis(v, "int64") || typeis(v, "float64") || typeis(v, "string") || typeis(v, "[]byte")
+//@ lemma lit-enc-injective-same-type(v1 Any, v2 Any) using varint-prefix-free varint-length varint-no-trailing-zero le64-injective f64bits-injective: litValue(v1) && litValue(v2) && atag(v1) == atag(v2) && litEnc(v1) == litEnc(v2) ==> v1 == v2
+//@ lemma lit-enc-injective(v1 Any, v2 Any) using varint-prefix-free varint-length varint-no-trailing-zero le64-injective f64bits-injective: litValue(v1) && litValue(v2) && litEnc(v1) == litEnc(v2) ==> v1 == v2
